@@ -466,7 +466,7 @@ func c14Point(c *Ctx) {
 		for _, r := range successReturns(w) {
 			got := be.bytesOf(r.Results[0], r).String()
 			dbg("Compress returns %s", got)
-			okC := strings.HasPrefix(got, "concat(lit(trunc8(call:sm2.getLastBit(a.Y)))") && strings.Contains(got, "bytes(a.X)")
+			okC := strings.HasPrefix(got, "concat(lit(trunc8(call:sm2.getLastBit(a.Y)))") && (strings.Contains(got, "bytes(a.X)") || strings.Contains(got, "pad32(a.X)"))
 			c.Check(okC, rule, fname(w), "parity byte of Y followed by X", "", "Compress returns "+got, r.Pos())
 		}
 	}
